@@ -205,6 +205,7 @@ class CBMachine(object):
         raise ValueError(e)
 
     def binop(self, op, a, b):
+        op = {"=<": "<=", "=>": ">="}.get(op, op)      # alternative spellings of the same operators
         sa, sb = isinstance(a, str), isinstance(b, str)
         if sa != sb:
             raise CBError("TM", op)
